@@ -8,13 +8,14 @@ Definition canonical (attrs : list Z) (n : Z) (o : bopt) : Prop :=
   line_boundary attrs (fst o + 1) = true
   /\ snd o = mandatory_boundary attrs (fst o + 1) && negb (fst o =? n - 1).
 
+(* an option pending re-issue is canonical (the register may hold an older option while the flag is clear: an option
+   rejected by isValid is discarded, discardWordOption) *)
 Definition BW (b : breaker) : Prop :=
   0 <= b_wpos b
-  /\ (canonical (b_attrs b) (b_n b) (b_unusedW b) \/ b_wpos b = 0 \/ b_n b + 1 <= b_wpos b)
-  /\ (b_isUnusedW b = true -> 1 <= b_wpos b <= b_n b).
+  /\ (b_isUnusedW b = true -> canonical (b_attrs b) (b_n b) (b_unusedW b) /\ 1 <= b_wpos b <= b_n b).
 
 Lemma BW_new : forall attrs, BW (new_breaker attrs).
-Proof. intros. unfold BW, new_breaker; cbn. split; [lia|]. split; [right; left; reflexivity|discriminate]. Qed.
+Proof. intros. unfold BW, new_breaker; cbn. split; [lia|discriminate]. Qed.
 
 Lemma canonical_required : forall attrs n o, canonical attrs n o ->
   (snd o = true <-> (mandatory_boundary attrs (fst o + 1) = true /\ fst o <> n - 1)).
@@ -27,27 +28,37 @@ Lemma nwb_canon : forall b b' ro, BW b -> next_word_break b = (b', ro) ->
   BW b' /\ b_attrs b' = b_attrs b /\ b_n b' = b_n b
   /\ (forall o, ro = Some o -> canonical (b_attrs b) (b_n b) o /\ 1 <= b_wpos b' <= b_n b).
 Proof.
-  intros b b' ro (H0 & H1 & H2) H. unfold next_word_break in H. destruct (b_isUnusedW b) eqn:F.
-  - inversion H; subst; clear H. specialize (H2 eq_refl). unfold BW; cbn.
-    split; [split; [lia|split; [exact H1|discriminate]]|]. split; [reflexivity|]. split; [reflexivity|].
-    intros o E. inversion E; subst. split; [|lia]. destruct H1 as [H1|[H1|H1]]; [exact H1|lia|lia].
+  intros b b' ro (H0 & H2) H. unfold next_word_break in H. destruct (b_isUnusedW b) eqn:F.
+  - inversion H; subst; clear H. destruct (H2 eq_refl) as [H1 H3]. unfold BW; cbn.
+    split; [split; [lia|discriminate]|]. split; [reflexivity|]. split; [reflexivity|].
+    intros o E. inversion E; subst. split; [exact H1|lia].
   - unfold next_word_raw in H. destruct (iter_next (b_attrs b) (b_n b) fl_line (b_wpos b)) as [p ok] eqn:E. destruct ok.
     + apply iter_next_spec in E; [|exact H0]. destruct E as (E1 & E2 & _).
       inversion H; subst; clear H. unfold BW; cbn. rewrite F.
       assert (C : canonical (b_attrs b) (b_n b) (p - 1, has_flag (znth 0 (b_attrs b) p) fl_mandatory && negb (p - 1 =? b_n b - 1))).
       { unfold canonical, line_boundary, mandatory_boundary, attr_at; cbn [fst snd]. replace (p - 1 + 1) with p by lia. split; [exact E2|reflexivity]. }
-      split; [split; [lia|split; [left; exact C|discriminate]]|]. split; [reflexivity|]. split; [reflexivity|].
+      split; [split; [lia|discriminate]|]. split; [reflexivity|]. split; [reflexivity|].
       intros o Eo. inversion Eo; subst. split; [exact C|lia].
     + apply iter_next_false in E. destruct E as [E _]. inversion H; subst; clear H. unfold BW; cbn. rewrite F.
-      split; [split; [lia|split; [right; right; lia|discriminate]]|]. split; [reflexivity|]. split; [reflexivity|]. intros o Eo; discriminate.
+      split; [split; [lia|discriminate]|]. split; [reflexivity|]. split; [reflexivity|]. intros o Eo; discriminate.
+Qed.
+
+(* the option handed out is the new unusedWordBreak *)
+Lemma nwb_unused : forall b b' o, next_word_break b = (b', Some o) -> b_unusedW b' = o.
+Proof.
+  intros b b' o H. unfold next_word_break in H. destruct (b_isUnusedW b).
+  - inversion H; subst; reflexivity.
+  - destruct (next_word_raw b) as [b1 [o1|]]; inversion H; subst; reflexivity.
 Qed.
 
 (* the registers of the line iterator *)
 Definition wsig (b : breaker) := (b_wpos b, b_unusedW b, b_isUnusedW b, b_attrs b, b_n b).
 Lemma BW_wsig : forall b b', wsig b' = wsig b -> BW b -> BW b'.
 Proof. intros b b' H. unfold wsig in H. inversion H. unfold BW. congruence. Qed.
-Lemma BW_mark : forall b, BW b -> 1 <= b_wpos b <= b_n b -> BW (mark_word_unused b).
-Proof. intros b (H0 & H1 & H2) H. unfold BW; cbn. auto. Qed.
+Lemma BW_mark : forall b, BW b -> canonical (b_attrs b) (b_n b) (b_unusedW b) -> 1 <= b_wpos b <= b_n b -> BW (mark_word_unused b).
+Proof. intros b (H0 & H2) HC H. unfold BW; cbn. auto. Qed.
+Lemma BW_discard : forall b, BW b -> b_isUnusedW b = false -> BW (discard_word b).
+Proof. intros b (H0 & H2) HF. unfold BW; cbn. split; [exact H0|]. intros Q. congruence. Qed.
 
 Lemma ngb_wsig : forall fuel b b' ro, next_grapheme_break fuel b = Ok (b', ro) -> wsig b' = wsig b.
 Proof.
@@ -94,20 +105,32 @@ Qed.
 Lemma br_ops : forall w b sfx, w_br (checkpoint w) = w_br w /\ w_br (restore w) = w_br w /\ w_br (set_br w b) = b /\ w_br (mark_best w sfx) = w_br w.
 Proof. destruct w; repeat split. Qed.
 
-(* the grapheme loop never reads the line iterator: it only re-arms the unused flag *)
-Lemma inner_BW : forall fuel w lc w' d, BW (w_br w) -> 1 <= b_wpos (w_br w) <= b_n (w_br w) ->
-  inner_loop fuel w lc = Ok (w', d) -> BW (w_br w').
+(* the end of the grapheme loop leaves the breaker alone *)
+Lemma fallback_br : forall w wopt lc w' d, word_fallback w wopt lc = Ok (w', d) -> w_br w' = w_br w.
 Proof.
-  induction fuel as [|fuel IH]; intros w lc w' d HB HP H; cbn [inner_loop] in H; [discriminate|].
+  intros w wopt lc w' d H. unfold word_fallback in H.
+  destruct (negb (lc_truncating lc) && negb (has_best w)); [|injection H as <- _; reflexivity].
+  destruct (process_break_option (restore w) wopt lc) as [[[w3 r] cand]| | |] eqn:PB; cbn [bind] in H; try discriminate.
+  apply pbo_br in PB. destruct (br_ops w (w_br w) []) as (_ & E & _). rewrite E in PB.
+  destruct r; injection H as <- _; rewrite <- PB; destruct w3; reflexivity.
+Qed.
+
+(* the grapheme loop never reads the line iterator: it only re-arms the unused flag *)
+Lemma inner_BW : forall fuel w wopt lc w' d, BW (w_br w) -> 1 <= b_wpos (w_br w) <= b_n (w_br w) ->
+  canonical (b_attrs (w_br w)) (b_n (w_br w)) (b_unusedW (w_br w)) ->
+  inner_loop fuel w wopt lc = Ok (w', d) -> BW (w_br w').
+Proof.
+  induction fuel as [|fuel IH]; intros w wopt lc w' d HB HP HCn H; cbn [inner_loop] in H; [discriminate|].
   destruct (br_ops w (w_br w) []) as (C1 & _). rewrite C1 in H.
   destruct (next_grapheme_break _ (w_br w)) as [[b1 ro]| | |] eqn:NG; cbn [bind fst snd] in H; try discriminate.
   apply ngb_wsig in NG. pose proof (BW_wsig _ _ NG HB) as HB1.
   assert (HP1 : 1 <= b_wpos b1 <= b_n b1) by (unfold wsig in NG; inversion NG; congruence).
-  destruct ro as [opt|]; [|injection H as E1 _; rewrite <- E1; destruct (br_ops (checkpoint w) b1 []) as (_ & _ & E & _); rewrite E; exact HB1].
+  assert (HC1 : canonical (b_attrs b1) (b_n b1) (b_unusedW b1)) by (unfold wsig in NG; inversion NG; congruence).
+  destruct ro as [opt|]; [|apply fallback_br in H; rewrite H; destruct (br_ops (checkpoint w) b1 []) as (_ & _ & E & _); rewrite E; exact HB1].
   destruct (process_break_option _ opt lc) as [[[w3 r] cand]| | |] eqn:PB; cbn [bind] in H; try discriminate.
   apply pbo_br in PB. destruct (br_ops (checkpoint w) b1 []) as (_ & _ & E & _). rewrite E in PB.
   destruct r.
-  - apply IH in H; [exact H| |]; destruct (br_ops w3 b1 []) as (_ & E2 & _); rewrite E2, PB; assumption.
+  - apply IH in H; [exact H| | |]; destruct (br_ops w3 b1 []) as (_ & E2 & _); rewrite E2, PB; assumption.
   - injection H as E1 _; rewrite <- E1. destruct (br_ops w3 b1 [cand]) as (_ & _ & _ & E2). rewrite E2, PB. exact HB1.
   - injection H as E1 _; rewrite <- E1. destruct (has_best w3); [rewrite PB; exact HB1|].
     destruct (br_ops (restore w3) b1 []) as (_ & _ & _ & E2). destruct (br_ops w3 b1 []) as (_ & E3 & _). rewrite E2, E3, PB. exact HB1.
@@ -115,9 +138,10 @@ Proof.
     match goal with |- BW (w_br (set_br ?x ?y)) => destruct (br_ops x y []) as (_ & _ & E2 & _); rewrite E2 end.
     rewrite ?(proj1 (proj2 (br_ops w3 b1 []))), PB.
     apply (BW_wsig (mark_word_unused b1)); [reflexivity|]. apply BW_mark; assumption.
-  - rewrite PB in H. apply IH in H; [exact H| |].
+  - rewrite PB in H. apply IH in H; [exact H| | |].
     + destruct (br_ops (mark_best w3 [cand]) (mark_word_unused b1) []) as (_ & _ & E2 & _). rewrite E2. apply BW_mark; assumption.
     + destruct (br_ops (mark_best w3 [cand]) (mark_word_unused b1) []) as (_ & _ & E2 & _). rewrite E2. exact HP1.
+    + destruct (br_ops (mark_best w3 [cand]) (mark_word_unused b1) []) as (_ & _ & E2 & _). rewrite E2. exact HC1.
   - destruct (lc_truncating lc); injection H as E1 _; rewrite <- E1; [rewrite PB; exact HB1|].
     destruct (br_ops (mark_best w3 [cand]) (mark_word_unused (w_br w3)) []) as (_ & _ & E2 & _). rewrite E2, PB. apply BW_mark; assumption.
 Qed.
@@ -130,14 +154,21 @@ Proof.
   destruct (nwb_canon _ _ _ HB NW) as (HB1 & _ & Hn1 & HC).
   destruct (br_ops (checkpoint w) b1 []) as (_ & _ & E & _).
   destruct ro as [opt|]; [|injection H as E1 _; rewrite <- E1; rewrite E; exact HB1].
-  destruct (HC opt eq_refl) as [_ HP1]. rewrite <- Hn1 in HP1.
+  destruct (HC opt eq_refl) as [HCn HP1]. rewrite <- Hn1 in HP1.
+  pose proof (nwb_unused _ _ _ NW) as HU1.
+  assert (HF1 : b_isUnusedW b1 = false).
+  { clear - NW. unfold next_word_break in NW. destruct (b_isUnusedW (w_br w)) eqn:F; [inversion NW; reflexivity|].
+    unfold next_word_raw in NW. destruct (iter_next _ _ _ _) as [p ok]. destruct ok; inversion NW; subst; cbn; exact F. }
+  assert (HC1 : canonical (b_attrs b1) (b_n b1) (b_unusedW b1)).
+  { rewrite HU1, Hn1. destruct (nwb_canon _ _ _ HB NW) as (_ & HA1 & _). rewrite HA1. exact HCn. }
   destruct (process_break_option _ opt lc) as [[[w3 r] cand]| | |] eqn:PB; cbn [bind] in H; try discriminate.
   apply pbo_br in PB. rewrite E in PB.
-  assert (G : forall wx, w_br wx = b1 \/ w_br wx = mark_word_unused b1 -> inner_loop (br_fuel wx) (restore wx) lc = Ok (w', d) -> BW (w_br w')).
-  { intros wx Hx Hi. apply inner_BW in Hi; [exact Hi| |]; destruct (br_ops wx b1 []) as (_ & E2 & _); rewrite E2;
-      destruct Hx as [-> | ->]; try assumption; try exact HP1; try (apply BW_mark; assumption). }
+  assert (G : forall wx, w_br wx = b1 \/ w_br wx = mark_word_unused b1 -> inner_loop (br_fuel wx) (restore wx) opt lc = Ok (w', d) -> BW (w_br w')).
+  { intros wx Hx Hi. apply inner_BW in Hi; [exact Hi| | |]; destruct (br_ops wx b1 []) as (_ & E2 & _); rewrite E2;
+      destruct Hx as [-> | ->]; try assumption; try exact HP1; try exact HC1; try (apply BW_mark; assumption). }
   destruct r; cbv zeta in H.
-  - apply IH in H; [exact H|]. destruct (br_ops w3 b1 []) as (_ & E2 & _). rewrite E2, PB. exact HB1.
+  - apply IH in H; [exact H|]. destruct (br_ops (restore w3) (discard_word (w_br (restore w3))) []) as (_ & _ & E3 & _). rewrite E3.
+    destruct (br_ops w3 b1 []) as (_ & E2 & _). rewrite E2, PB. apply BW_discard; assumption.
   - injection H as E1 _; rewrite <- E1. destruct (br_ops w3 b1 [cand]) as (_ & _ & _ & E2). rewrite E2, PB. exact HB1.
   - assert (E2 : w_br (if has_best w3 then w3 else mark_best (restore w3) []) = b1).
     { destruct (has_best w3); [exact PB|]. destruct (br_ops (restore w3) b1 []) as (_ & _ & _ & E2). destruct (br_ops w3 b1 []) as (_ & E3 & _). rewrite E2, E3. exact PB. }
